@@ -939,6 +939,63 @@ class World:
         op = "(OAuthz %s %s %s)" % (coq_str(iss), self.coq_response(model, tok), coq_z(self.clock.now))
         return self._record(op, "authz", {"issuer": iss, "params": model, "tok": tok, "now": self.clock.now}, out, before)
 
+    # -- a front-channel response recombined member by member (Model/RpState.v hybrid / hybrid_response)
+    def placeholder_once(self, tok):
+        """placeholder() mints anew on every call, which is only stable for deterministic signatures (RS*); the
+        ID Token of a flow is ONE compact string however often it is delivered (EC signatures are randomised)"""
+        memo = self.__dict__.setdefault("_minted", {})
+        hit = memo.get(id(tok))
+        if hit is None or hit[0] is not tok:
+            hit = (tok,) + tuple(self.placeholder(tok))
+            memo[id(tok)] = hit
+        return hit[1], hit[2]
+
+    def coq_flow(self, fl):
+        """fl: an object with state, nonce, code, aat (access token of the authorization endpoint) and tok (its
+        ID Token); the ID Token is named by its placeholder"""
+        _, ph = self.placeholder_once(fl.tok)
+        return I.share("(mkFlow %s %s %s %s %s %s)" % (coq_str(fl.state), coq_str(fl.nonce), coq_str(fl.code),
+                                                      coq_str(fl.aat), coq_str(ph), coq_token(fl.tok)), "flow")
+
+    def authz_hybrid(self, iss, state_of, code_of=None, idt_of=None, at_of=None):
+        """deliver {state of state_of, code of code_of, ID Token of idt_of, access token (+ token_type) of at_of}
+        - each member present iff its flow is given - to the client of iss.  The model replays it as
+        OAuthz iss (hybrid_response (mkHybrid ...)); the oracle gets the ground truth of every member."""
+        before = self.snapshot()
+        real = {"state": state_of.state}
+        if code_of is not None:
+            real["code"] = code_of.code
+        if at_of is not None:
+            real["access_token"] = at_of.aat
+            real["token_type"] = "Bearer"
+        model = dict(real)
+        tok = None
+        if idt_of is not None:
+            tok = idt_of.tok
+            jwt, ph = self.placeholder_once(tok)
+            real["id_token"], model["id_token"] = jwt, ph
+        for k in ("code", "access_token"):
+            if k in real:
+                self.hashed.add(real[k])
+        for fl in (state_of, code_of, idt_of, at_of):     # the hash table covers every issued value of the flows named
+            if fl is not None:
+                self.hashed.update((fl.code, fl.aat))
+        try:
+            if self.rph is not None:
+                r = self.rph.finalize_auth(None, iss, real)
+            else:
+                r = self.clients[iss].finalize_auth(real)
+            out = ("ok", self._canon(r.to_dict()))
+        except Exception as e:      # noqa: BLE001 - every refusal is an observation
+            out = ("err", exc_name(e))
+        fopt = lambda fl: coq_opt(fl, self.coq_flow, "flow")    # noqa: E731
+        op = "(OAuthz %s (hybrid_response (mkHybrid %s %s %s %s)) %s)" % (
+            coq_str(iss), self.coq_flow(state_of), fopt(code_of), fopt(idt_of), fopt(at_of), coq_z(self.clock.now))
+        members = {"state": state_of.n, "code": None if code_of is None else code_of.n,
+                   "id_token": None if idt_of is None else idt_of.n, "access_token": None if at_of is None else at_of.n}
+        return self._record(op, "authz", {"issuer": iss, "params": model, "tok": tok, "now": self.clock.now,
+                                          "members": members}, out, before)
+
     def token(self, iss, st, params, tok=None, routed=False):
         before = self.snapshot()
         real, model = self._deliver(params, tok)
